@@ -37,7 +37,7 @@ var boundedChecks = map[string][]BoundedCheck{
 	"C10": {{Prop: "C10", Name: "annotation-placement", Pkg: ".", File: "annotation_placement_test.go.txt", Run: "TestVerifAnnotationPlacement",
 		Bound: "a nonnil annotation on a global variable and on a struct field, each declared plainly, in a parenthesised group of one and in a group of two specs (6 shapes), run through the real analyzer: a nil stored into the annotated site is reported in every form"}},
 	"C11": {{Prop: "C11", Name: "nolint-line-directives", Pkg: ".", File: "nolint_line_directive_test.go.txt", Run: "TestVerifNoLintLineDirectives",
-		Bound: "6 shapes of //nolint:nilaway comments inside and outside regions governed by //line directives (over-constraint and single-assertion conflicts, statement- and function-level comments, an adjusted file:line that aliases another physical line), run through the real analyzer: exactly the findings on the comment's own physical lines are suppressed"}},
+		Bound: "9 shapes of //nolint:nilaway comments: nested and adjacent scopes, and comments inside and outside regions governed by //line directives (over-constraint and single-assertion conflicts, statement- and function-level comments, an adjusted file:line that aliases another physical line), run through the real analyzer: exactly the findings on the comment's own physical lines are suppressed"}},
 	"C12": {{Prop: "C12", Name: "doc-contains", Pkg: "util/asthelper", File: "doc_contains_test.go.txt", Run: "TestVerifDocContains",
 		Bound: "13 spellings of the comments before (and after) the package clause - line, block, directive-style, after a build constraint, trailing - through the real DocContains: a file contains the excluded docstring exactly when a comment before its package clause does"}},
 	"C13": {{Prop: "C13", Name: "prettyprint-strip-roundtrip", Pkg: ".", File: "prettyprint_roundtrip_test.go.txt", Run: "TestVerifPrettyPrintRoundTrip",
